@@ -6,32 +6,34 @@ ALL = ["C%02d" % i for i in range(1, 21)]
 
 # id -> (level, technique, level_text, level_note, design_ref)
 MC = "model_checking"
+NSCHED = " + stateless schedule exploration (one stall / pre-emption at every scheduling point of scripted baselines)"
+CONC = " + exhaustive interleaving enumeration (every mutex/storage/atomic operation a scheduling point, pre-emption bounded, outcome must equal a sequential order) of small component harnesses"
 HIST = "explicit-state BFS over environment histories, every transition executed on the real implementation (Node.Run under a controlled cooperative scheduler with virtual clock/network; successors by replay on a fresh instance; canonical state keys by reflective dump)"
 NOTE_NODE = "Peer model P is one Bitcoin-node behaviour (answers getheaders/getdata, BIP130 header announcements, pings); hist mode explores quiescent-point event orders with the canonical thread schedule and merges states differing only in poll phase; storage key-atomic; synthetic blocks/txs without PoW or signatures."
 CHECKS = {
- "C01": (MC, HIST + "; convergence decided by a fair drain suffix from every reached state",
-         "All histories up to depth 5 (thorough 7) over {answer requests in/out of order, extend 1/2/12, reorg depth 1/2, return to abandoned branch, ping, tick, settle, duplicate, clean restart, connection drop} from a synced and a cold-start scenario; from every reached state the node must converge to the peer's best chain after a drain incl. 61 s/601 s time-outs; HandleInSync only when all announced blocks are held.",
+ "C01": (MC, HIST + "; convergence decided by a fair drain suffix from every reached state" + NSCHED,
+         "All histories up to depth 5 (thorough 7) over {answer requests in/out of order, extend 1/2/12, reorg depth 1/2, return to abandoned branch, ping, tick, settle, duplicate and late duplicate of a still-valid announcement, clean restart, connection drop} from a synced, a cold-start and two header-batch scenarios (peer sends headers 4 at a time; one starts from a reconnect in the pending-sync phase); from every reached state the node must converge to the peer's best chain after a drain incl. 61 s/601 s time-outs; HandleInSync only when all announced-and-consumed blocks are held and a headers message of this session reached the peer's tip. Three baselines with a stall/pre-emption at every scheduling point.",
          NOTE_NODE, "DESIGN.md §4 C01"),
- "C02": (MC, HIST + " with an adversarial trusted connection; invariants after every event",
-         "All sequences up to depth 5 (8) of header messages (lists drawn from a tree with forks at processed / pending / pre-start blocks, duplicates, gaps, unknown parents, empty) and block messages (requested, unrequested, duplicate, unknown) with block-processor steps in between, in three scenarios (normal, start block not yet seen, fork across the 1000-header file boundary): parent linkage of every stored block, Hash/Height inverse both ways, contiguous HandleHeaders heights (shadow chain), no panic.",
+ "C02": (MC, HIST + " with an adversarial trusted connection; invariants after every event" + CONC + " (block repository) + single-fault runs",
+         "All sequences up to depth 5 (8) of header messages (lists drawn from a tree with forks at processed / pending / pre-start blocks, duplicates, gaps, unknown parents, empty) and block messages (requested, unrequested, duplicate, unknown) with block-processor steps in between, in three scenarios (normal, start block not yet seen, fork across the 1000-header file boundary): parent linkage of every stored block, Hash/Height inverse both ways, contiguous HandleHeaders heights (shadow chain), no panic. Block repository: all interleavings (pre-emption bound 2, thorough unbounded) of save / add / revert programs of 2-3 threads across the file boundary. Header sync below the start block across the boundary with every storage operation failing once and the peer repeating its headers.",
          "No assumption on peer behaviour beyond well-formed wire messages; canonical thread schedule between events; hash->height direction read from the private map by reflection (public twin: Height(Hash(h))).", "DESIGN.md §4 C02"),
- "C03": (MC, HIST + "; per-txid delivery monitor as oracle",
-         "All histories up to depth 4 (thorough 6) of how relevant/child/irrelevant txs reach the node (trusted/untrusted inv and tx, getdata answers, local submission, blocks, restart, crash): HandleTx at most once per handler and txid, completeness, no irrelevant delivery, spent outputs per input, identical handler streams.",
+ "C03": (MC, HIST + "; per-txid delivery monitor as oracle" + NSCHED,
+         "All histories up to depth 4 (thorough 6) of how relevant/child/irrelevant txs reach the node (trusted/untrusted inv and tx, getdata answers, local submission, blocks, restart, crash): HandleTx at most once per handler and txid, completeness, no irrelevant delivery, spent outputs per input, identical handler streams, a confirmation with proof for every relevant tx of a processed block; a second scenario relays 104 txs back to back (more than the tx channel buffers).",
          NOTE_NODE, "DESIGN.md §4 C03"),
  "C04": (MC, "bounded-exhaustive enumeration of block shapes through the real in-sync node; independent merkle verifier",
-         "Block sizes 1..9 (17), every subset of relevant positions for n<=6 (8) and all singletons/pairs above, previously delivered or not; corrupted bodies (drop/insert/swap/alter) under an unchanged header for n<=5 (7), served in sync and during initial sync: proof path + duplicated levels hash to the header's root, true index, depth 0, new vs update; corrupted blocks never advance the chain or deliver anything.",
+         "Block sizes 1..9 (17), every subset of relevant positions for n<=6 (8) and all singletons/pairs above, previously delivered or not; corrupted bodies (drop/insert/swap/alter) under an unchanged header for n<=5 (7), served in sync, during initial sync and handed to ProcessBlock; a one-block reorganisation with the same txs rotated (n<=5 (8)); previously seen txs flagged unsafe by a double spend before they confirm; the block synced, the process killed after every storage mutation, restarted and synced again (n<=4 (6)): at the moment of every notification the node holds the proof's header; proof path + duplicated levels hash to the header's root, true index, depth 0, new vs update; corrupted blocks never advance the chain or deliver anything.",
          NOTE_NODE + " Duplicate-tail malleability (corruptions that keep the root) is not asserted.", "DESIGN.md §4 C04"),
- "C05": (MC, "explicit-state BFS on the real MemPool vs map[outpoint]set<txid> (component) + " + HIST + " (node level)",
-         "Component: every operation sequence up to depth 5 (7) over add/remove/conflicting/request/tick on 5 (7) txs with forced outpoint collisions, compared with a reference index. Node: all histories up to depth 4 (6) of arrival orders/sources/evictions; each relevant member of a conflicting pair reported unsafe, never safe afterwards, no spurious unsafe.",
+ "C05": (MC, "explicit-state BFS on the real MemPool vs map[outpoint]set<txid> (component; state key includes slice capacities) + " + HIST + " (node level)",
+         "Component: every operation sequence up to depth 5 (7) over add/remove/conflicting/request/tick on 5 (7) txs with forced outpoint collisions, compared with a reference index. Node: all histories up to depth 4 (6) of arrival orders/sources/evictions; each relevant member of a conflicting pair reported unsafe, never safe afterwards, no spurious unsafe; a focused scenario with conflicts that span a clean restart or a crash.",
          NOTE_NODE, "DESIGN.md §4 C05"),
- "C06": (MC, HIST + "; cancel/unsafe update oracle",
-         "All histories up to depth 4 (6) of unconfirmed relevant/irrelevant txs and confirming blocks with double spends (winner relevant or not, seen before or not, one or two losers); cancelled+unsafe update for each delivered loser, block on the node's chain.",
+ "C06": (MC, HIST + "; cancel/unsafe update oracle" + NSCHED,
+         "All histories up to depth 4 (6) of unconfirmed relevant/irrelevant txs and confirming blocks with double spends (winner relevant or not, seen before or not, one or two losers); cancelled+unsafe update for each delivered loser (also one delivered before a clean restart, or before a crash if a block was processed in between), block on the node's chain, the block's relevant txs delivered with proofs.",
          NOTE_NODE, "DESIGN.md §4 C06"),
- "C07": (MC, HIST + " with virtual clock; state-trajectory oracle + liveness phase from every state",
-         "All histories up to depth 4 (6) mixing untrusted/trusted announcements, conflicts, clock steps around the 2000 ms safe delay, confirmation, local submission, restart; invariants on every per-txid state sequence and safe-within-bound when warranted.",
+ "C07": (MC, HIST + " with virtual clock; state-trajectory oracle + liveness phase from every state" + NSCHED,
+         "All histories up to depth 4 (6) mixing untrusted/trusted announcements, conflicts, clock steps around the 2000 ms safe delay, confirmation, local submission, restart; conflicts from untrusted and trusted peers, relevant and irrelevant, confirmed while the node was down; invariants on every per-txid state sequence and safe-within-bound when warranted (also for txs delivered before a clean restart).",
          NOTE_NODE, "DESIGN.md §4 C07"),
- "C15": (MC, "bounded-exhaustive enumeration of field boundary values through the real codec (encode, decode, re-encode, prefixes, concatenations)",
-         "428 values over all 37 payload types (product of per-field boundary domains): exact byte consumption, identical re-encoding, structural equality, type tables; every strict prefix fails with an error; all ordered pairs/triples of representatives decode as a stream.",
+ "C15": (MC, "bounded-exhaustive enumeration of field boundary values through the real codec (encode, decode, re-encode, prefixes, concatenations)" + CONC + " (concurrent serialisation)",
+         "485 values (lists of 0/1/2/253/256/257/300 entries, multi-byte text) over all 37 payload types (product of per-field boundary domains): exact byte consumption, identical re-encoding, structural equality, type tables; every strict prefix fails with an error; all ordered pairs/triples of representatives decode as a stream. 2 (3) goroutines serialising different messages to their own connections, all interleavings: each connection receives exactly its message.",
          "Dependency-typed fields compared through their own encoding.", "DESIGN.md §4 C15"),
  "C16": (MC, "explicit-state BFS over call/response histories of the real RemoteClient.Run + stateless schedule exploration (one deviation at every point, all alternatives of multi-ready selects) + bounded-exhaustive outputs lookups",
          "All histories up to depth 4 (6) of concurrent calls of mixed kinds, server answers in any order (proper/reject/none), unsolicited responses, clock past the request time-out; every call gets its own key's response, the server's reject, or a time-out. With an immediately answering server: stall/pre-emption at every scheduling point and every select alternative. All outpoint lists <= 3 over 2 txids x {0,1,out of range}.",
@@ -39,37 +41,37 @@ CHECKS = {
  "C17": (MC, "explicit-state BFS over server notification streams / drops / reconnects + stateless schedule exploration with an immediately replaying server",
          "All streams up to depth 5 (7) of Tx/TxUpdate with next/repeated/skipped/old/far ids, Headers, InSync, drops and reconnects (Ready(NextMessageID()) from the handler; also a persisted first id 57 and a replaying server): consecutive ids from the declared id, NextMessageID = last+1, handlers identical, server order, nothing missed. Stall / pre-emption / drop at every scheduling point of two baselines.",
          "As C16.", "DESIGN.md §4 C17"),
- "C18": (MC, "explicit-state BFS over accept-message variants, application call placements and connection drops on the real RemoteClient.Run, both connection types",
+ "C18": (MC, "explicit-state BFS over accept-message variants, application call placements and connection drops on the real RemoteClient.Run, both connection types" + NSCHED,
          "All histories up to depth 4 (6) with a manual server: ten accept variants (valid, unrelated key, key for another hash, other signer, root signer, altered message/utxo/push counts, signature over another hash, replayed previous accept), a request / subscription / Ready before and after accept and while disconnected, notifications, drops, reconnects: register verifies, only handshake types before the handshake, forged accept ends Run with an error and no data, success implies bytes at the server.",
          "As C16.", "DESIGN.md §4 C18"),
  "C19": (MC, "stateless schedule exploration of the real Node.Run with one deviation (Stop / connection close / reset / stall / pre-emption) inserted at every scheduling point of scripted baselines",
-         "Five baselines (cold start with sync+txs+block, refused dials, in sync with an untrusted peer, scripted connection loss, scripted Stop with concurrent application calls); at every scheduling point one deviation; Run/Stop return within retry delay + 4 s virtual time, no thread left, no callback after Stop, storage equals memory, reconnect converges without re-announcing.",
+         "Nine baselines (cold start with sync+txs+block, refused dials, dials refused beyond MaxRetries, in sync with an untrusted peer, scripted connection loss, scripted Stop with concurrent application calls, a 104-tx burst filling the tx channel from one and from two peers, a failing application output fetcher); at every scheduling point one deviation; Run/Stop return within retry delay + 4 s virtual time, no thread left, no callback after Stop, storage equals memory, reconnect converges without re-announcing.",
          NOTE_NODE + " Deviation bound 1 over scripted baselines (some baselines script a first event so that two-event races are covered); atomics are not scheduling points.", "DESIGN.md §4 C19"),
  "C08": (MC, "bounded-exhaustive enumeration of scripts / subscription sequences on the real Node.IsRelevant vs an independent tokenizer and multiset",
-         "Every sequence of <=3 (4) tokens from a 26-token alphabet and every byte prefix of each script, in output 0/1 and input 0/1; every subscribe/unsubscribe sequence <=4 (5); contract flag x action kinds.",
+         "Every sequence of <=3 (4) tokens from a 26-token alphabet and every byte prefix of each script, in output 0/1 and input 0/1; every subscribe/unsubscribe sequence <=4 (5) incl. batches; contract flag x action kinds alone and in pairs of outputs; every ordered pair of 14 scripts of interest in every pair of positions.",
          "Payload universe of 5 values; OP_1..16/OP_1NEGATE treated as one-byte pushes on both sides.", "DESIGN.md §4 C08"),
  "C09": (MC,
-         "bounded-exhaustive enumeration of operation sequences on the real BlockRepository vs a reference slice (explicit enumeration, no sampling)",
-         "Every sequence of <=3 (thorough: <=4) macro operations {add, grow to boundary, revert to boundary, save, save+reload} over the 1000-header file boundaries is executed on the real block repository over an in-memory store (both delete-missing behaviours) and every by-height / by-hash / tip / range query is compared with a reference list after every step.",
+         "bounded-exhaustive enumeration of operation sequences on the real BlockRepository vs a reference slice (explicit enumeration, no sampling)" + CONC + " (save / add / revert from 2-3 threads)",
+         "Every sequence of <=3 (thorough: <=4) macro operations {add, grow to boundary, revert to boundary, equal-length fork, save, save+reload} over the 1000-header file boundaries is executed on the real block repository over an in-memory store (both delete-missing behaviours) and every by-height / by-hash / tip / range query is compared with a reference list after every step.",
          "Storage write/remove atomic per key; synthetic headers (no PoW); heights concentrated at 0, 1000k-1, 1000k, 1000k+1 (k<=3) and tip.",
          "DESIGN.md §4 C09"),
- "C10": ("fault_enumeration", "crash-point and single-fault enumeration over the storage mutation/operation log of canonical histories executed on the real node (every prefix, every operation)",
-         "For each canonical history (sync, extension, reorgs within a file and across the 1000 boundary, reorg with a relevant tx, clean stop; both delete-missing behaviours): a fresh node on EVERY prefix image of the mutation log must load a hash-linked single-branch chain and re-converge; EVERY single storage operation failing once must leave a node that converges, or one that does after a restart.",
+ "C10": ("fault_enumeration", "crash-point and single-fault enumeration over the storage mutation/operation log of canonical histories executed on the real node (every prefix, every operation)" + CONC + " (block repository)",
+         "For each canonical history (sync, extension, reorgs within a file and across the 1000 boundary, reorg with a relevant tx, clean stop; both delete-missing behaviours): a fresh node on EVERY prefix image of the mutation log must load a hash-linked single-branch chain and re-converge; EVERY single storage operation failing once (with and without the scenario's final clean restart) must leave a node that converges, or one that does after a restart, and what it leaves behind after a clean stop must load as one announced branch.",
          NOTE_NODE + " Crash = loss of all threads between two storage mutations; writes atomic per key.", "DESIGN.md §4 C10"),
- "C11": (MC, HIST + " with clean restart events",
-         "All histories up to depth 4 (6) with Stop + new Node on the same store at any quiescent point: no re-delivery, confirmation after restart is an update with proof, safe not repeated, flags sticky, GetTx returns the delivered tx.",
+ "C11": (MC, HIST + " with clean restart events" + NSCHED,
+         "All histories up to depth 4 (6) with Stop + new Node on the same store at any quiescent point: no re-delivery, confirmation after restart is an update with proof, safe not repeated, flags sticky, GetTx returns the delivered tx; safe still reported after the restart when warranted; the application re-subscribing its filter late.",
          NOTE_NODE, "DESIGN.md §4 C11"),
  "C12": (MC, "differential " + HIST + ": each history is executed with and without its untrusted events",
-         "All histories up to depth 4 (5) over trusted events and raw untrusted-connection messages (header shapes, inv, tx, blocks incl. a forged body for an outstanding request, addr, garbage): final chain, HandleHeaders sequence and confirmations identical, safe set may only shrink, nothing requested from / delivered because of an unverified peer.",
+         "All histories up to depth 3 (5) over 23 trusted and raw untrusted-connection events, depth 4 (6) over a focused alphabet, and a chain of 1002 blocks with a reorganisation across the file boundary and an untrusted peer still on the abandoned branch (header shapes, inv, tx plain and in extmsg framing, blocks incl. a forged body for an outstanding or delivered-but-unprocessed request, addr, garbage, restart): final chain, HandleHeaders sequence and confirmations identical, safe set may only shrink, nothing requested from / delivered because of an unverified peer.",
          NOTE_NODE + " One untrusted connection.", "DESIGN.md §4 C12"),
- "C13": (MC, "explicit-state BFS on the real state.State vs a two-FIFO reference model",
-         "Every operation sequence up to depth 6 (9) over announce/deliver(small, 60 MB)/pop/next-request/clear-all/clear-after/set-last on a tree with two forks; return values, counts, last hash and buffered-byte accounting compared after every step.",
+ "C13": (MC, "explicit-state BFS on the real state.State vs a two-FIFO reference model" + CONC + " (request state) + " + HIST + " (node level, block download oracle)",
+         "Every operation sequence up to depth 6 (9) over announce/deliver(small, 60 MB)/pop/next-request/clear-all/clear-after/set-last on a tree with two forks; return values, counts, last hash and buffered-byte accounting compared after every step (deliveries incl. bodies that fail the merkle check). Node level: histories with announcements longer than the ten-block window, forks off the window and the backlog, raw headers messages announcing a branch and its fork at once.",
          "Fake block bodies (size only); component level (the wire-level order of getdata is exercised by C01's histories).", "DESIGN.md §4 C13"),
- "C14": (MC, HIST + " with virtual clock; oracle over timestamped getdata(tx) on all connections",
-         "All histories up to depth 4 (6) of overlapping inv announcements from the trusted and two verified untrusted connections, deliveries, silence, pings, 1 s/3.1 s steps, confirmation: one request per 3 s window, none after the body/block, re-request from another announcer after the window.",
+ "C14": (MC, HIST + " with virtual clock; oracle over timestamped getdata(tx) on all connections" + NSCHED + CONC + " (tx tracker + mempool)",
+         "All histories up to depth 4 (6) of overlapping inv announcements from the trusted and two verified untrusted connections, deliveries, silence, pings, 1 s/3.1 s steps, confirmation: one request per 3 s window, none after the body/block, re-request from another announcer after the window. Component: one Check over n tracked expired txids around the 100-per-message batching; Check || block clean-up || announcement || arrival in all interleavings.",
          NOTE_NODE, "DESIGN.md §4 C14"),
  "C20": (MC, "exhaustive enumeration of hostile splices over valid encodings, each decoded in a memory-limited worker process",
-         "Up to 4 encodings of each of the 37 payload types and 6 kinds of stored record: every byte offset overwritten by each of 16 hostile counts/lengths (with and without truncation) plus all strings <=3 (4) over 8 bytes behind every type code: no panic, allocation <= 512*len+256KiB, process survives. Five open known findings, all inside the dependency tokenized/pkg (wire.MsgTx decoding, Signature.Deserialize).",
+         "Every valid corpus encoding (incl. lists of 256/257/300 entries) decoded as is; up to 4 encodings of each of the 37 payload types and 6 kinds of stored record: every byte offset overwritten by each of 16 hostile counts/lengths (with and without truncation) plus all strings <=3 (4) over 8 bytes behind every type code: no panic, allocation <= 512*len+256KiB, process survives. Five open known findings, all inside the dependency tokenized/pkg (wire.MsgTx decoding, Signature.Deserialize).",
          "Allocation measured by runtime counters; 3 GB address-space limit per worker.", "DESIGN.md §4 C20"),
 }
 
